@@ -1,21 +1,20 @@
 import PP.Model.Types
 import PP.Model.Unicode
 /-
-url.QueryUnescape, Func.Init (stack.go:52-106), Call.init (stack.go:383-399).
+url.PathUnescape, Func.Init (stack.go:52-106), Call.init (stack.go:383-399).
 -/
 namespace PP
 open Bytes
 
-/-- url.QueryUnescape: `%XX` escapes, `+` → space; `none` = EscapeError -/
-def queryUnescape : Bytes → Option Bytes
+/-- url.PathUnescape: `%XX` escapes only (`+` stays `+`); `none` = EscapeError -/
+def pathUnescape : Bytes → Option Bytes
   | [] => some []
   | 37 :: a :: b :: rest =>
-    if isHex a && isHex b then (queryUnescape rest).map (fun t => (hexVal a * 16 + hexVal b).toUInt8 :: t)
+    if isHex a && isHex b then (pathUnescape rest).map (fun t => (hexVal a * 16 + hexVal b).toUInt8 :: t)
     else none
   | [37] => none
   | [37, _] => none
-  | 43 :: rest => (queryUnescape rest).map (fun t => 32 :: t)
-  | c :: rest => (queryUnescape rest).map (fun t => c :: t)
+  | c :: rest => (pathUnescape rest).map (fun t => c :: t)
 
 inductive FErr
   | noDot       -- "expected to have at least one dot"
@@ -64,13 +63,13 @@ def funcInit (raw : Bytes) : Except FErr Func :=
   match endPkg? with
   | .error e => .error e
   | .ok endPkg =>
-    match queryUnescape raw with
+    match pathUnescape raw with
     | none => .error .escape
     | some complete =>
       let endPkg' := match endPkg with
         | some e =>
           if e > 0 then
-            match queryUnescape (raw.take e) with
+            match pathUnescape (raw.take e) with
             | some pkg => some pkg.length
             | none => some e
           else some e
